@@ -408,16 +408,66 @@ impl RefEnc {
 
     /// End-of-stream marker: a match with distance 2^32 and the minimum length.
     pub fn encode_end_marker(&mut self) {
+        self.encode_end_marker_len(2);
+    }
+    /// The marker is recognised by its distance alone; any length 2..=273 may
+    /// accompany it (liblzma and the LZMA SDK accept that too).
+    pub fn encode_end_marker_len(&mut self, len: u32) {
         let pb = self.probs.props.pb;
         let pos_state = self.model.avail() & ((1usize << pb) - 1);
         let st = self.state;
         let im = (st << 4) + pos_state;
         self.rc.bit(&mut self.probs.is_match[im], 1);
         self.rc.bit(&mut self.probs.is_rep[st], 0);
-        Self::encode_len(&mut self.rc, &mut self.probs.len, 0, pos_state);
-        self.encode_dist(0xFFFF_FFFF, 2);
+        Self::encode_len(&mut self.rc, &mut self.probs.len, len - 2, pos_state);
+        self.encode_dist(0xFFFF_FFFF, len);
         self.state = state_after_match(st);
         self.rec(4, st);
+    }
+
+    /// Development aid: information cost (bits) of each component of an end
+    /// marker with the given length, under the current probabilities.
+    pub fn marker_cost(&self, len: u32) -> Vec<(&'static str, f64)> {
+        let c = |p: u16, bit: u32| -> f64 {
+            let p0 = p as f64 / 2048.0;
+            -(if bit == 0 { p0 } else { 1.0 - p0 }).log2()
+        };
+        let pb = self.probs.props.pb;
+        let pos_state = self.model.avail() & ((1usize << pb) - 1);
+        let st = self.state;
+        let mut v = Vec::new();
+        v.push(("is_match", c(self.probs.is_match[(st << 4) + pos_state], 1)));
+        v.push(("is_rep", c(self.probs.is_rep[st], 0)));
+        let l = len - 2;
+        if l >= 16 {
+            v.push(("choice", c(self.probs.len.choice, 1)));
+            v.push(("choice2", c(self.probs.len.choice2, 1)));
+            let mut m = 1usize;
+            let mut t = 0.0;
+            for i in (0..8).rev() {
+                let b = ((l - 16) >> i) & 1;
+                t += c(self.probs.len.high[m], b);
+                m = (m << 1) | b as usize;
+            }
+            v.push(("high8", t));
+        }
+        let ls = (l.min(3)) as usize;
+        let mut m = 1usize;
+        let mut t = 0.0;
+        for _ in 0..6 {
+            t += c(self.probs.pos_slot[ls][m], 1);
+            m = (m << 1) | 1;
+        }
+        v.push(("slot6", t));
+        v.push(("direct26", 26.0));
+        let mut m = 1usize;
+        let mut t = 0.0;
+        for _ in 0..4 {
+            t += c(self.probs.align[m], 1);
+            m = (m << 1) | 1;
+        }
+        v.push(("align4", t));
+        v
     }
 
     /// Flush the range coder and return the bytes of this segment; the next
